@@ -292,3 +292,14 @@ package workflow
 //@   ghostvar called bool = false
 //@   on aftercall field.ParentAdapter.getUserVarsFunc : g = result ; called = true
 //@   ensures called && m == g
+
+// ---------------------------------------------------------------------------------------------------------
+// C02: the tasks a transition commands are ALL the tasks of the tree whose role is ACTIVE - nothing else decides
+// (in particular not the state: a critical task sitting in ERROR is still commanded, and its failure to answer fails
+// the transition).
+//@ closure GetActiveTasks #1
+//@   property C02
+//@   ghostvar asked bool = false
+//@   ghostvar st task.Status = task.UNDEFINED
+//@   on aftercall .GetStatus : asked = true ; st = result
+//@   on return : assert result == (asked && st == task.ACTIVE)
